@@ -278,16 +278,27 @@ class HistoryReplay(NativeCase):
         from .c02 import MEM_BLOCKS
         from .c10 import EDGE_BLOCKS
         pool = list(corpus.BASE_BLOCKS) + MEM_BLOCKS[:20] + EDGE_BLOCKS[:20]
-        targets = pool[::7] if tier == 'quick' else pool
+        targets = pool[::7] if tier == 'quick' else pool[::2]
         job = []
+        chunks = []
         for opts in (dict(), dict(storage=True)):
             for i, b in enumerate(targets):
                 others = [x for x in pool if x != b]
-                hists = [others[:10], list(reversed(others))[:10]] if tier == 'quick' else [others, list(reversed(others)), others[::2]]
-                job.append((None, b, opts))
-                for h in hists:
-                    job.append((h, b, opts))
-        res = run_child(job)
+                hists = [others[:10], list(reversed(others))[:10]] if tier == 'quick' else [others[:40], list(reversed(others))[:40], others[::3]]
+                part = [(None, b, opts)] + [(h, b, opts) for h in hists]
+                job += part
+                chunks.append(part)
+        # one child process per group of targets, several at a time (each child forks per history, so nothing is shared)
+        from concurrent.futures import ThreadPoolExecutor
+        groups = [sum(chunks[k::12], []) for k in range(12)] if tier != 'quick' else [job]
+        groups = [g for g in groups if g]
+        with ThreadPoolExecutor(max_workers=min(12, len(groups))) as tp:
+            outs = list(tp.map(run_child, groups))
+        by_key = {}
+        for g, o in zip(groups, outs):
+            for jb, r in zip(g, o):
+                by_key[json.dumps(jb, sort_keys=True)] = r
+        res = [by_key[json.dumps(list(jb), sort_keys=True)] if json.dumps(list(jb), sort_keys=True) in by_key else by_key[json.dumps(jb, sort_keys=True)] for jb in job]
         i = 0
         n = 0
         while i < len(job):
